@@ -47,6 +47,7 @@ package ngapTestpacket
 
 //@ func BuildPDUSessionResourceSetupResponseForRegistrationTest
 //@ prop C13
+//@ call GetPDUSessionResourceSetupResponseTransfer gtp (ipv4 string, outer_ipv4 string): ipv4 == outer_ipv4
 //@ requires ip: len(ipv4) >= 1 && net.ParseIP(ipv4).To4() != nil
 //@ ensures class: pdu.Present == 2 && pdu.SuccessfulOutcome != nil && pdu.InitiatingMessage == nil && pdu.UnsuccessfulOutcome == nil
 //@ ensures head: pdu.SuccessfulOutcome.ProcedureCode.Value == ngap38413.ProcPDUSessionResourceSetup && pdu.SuccessfulOutcome.Criticality.Value == ngap38413.Reject && pdu.SuccessfulOutcome.Value.PDUSessionResourceSetupResponse != nil
@@ -74,6 +75,7 @@ package ngapTestpacket
 
 //@ func BuildInitialContextSetupResponse
 //@ prop C13
+//@ call GetPDUSessionResourceSetupResponseTransfer gtp (ipv4 string, outer_ipv4 string): ipv4 == outer_ipv4
 //@ maynil pduSessionFailedList
 //@ requires nofail: pduSessionFailedList == nil
 //@ requires ip: len(ipv4) >= 1 && net.ParseIP(ipv4).To4() != nil
@@ -82,3 +84,21 @@ package ngapTestpacket
 //@ ensures ies: vcIEs(vcICSResIDs(pdu), []int64{ngap38413.IEAMFUENGAPID, ngap38413.Ignore, ngap38413.IERANUENGAPID, ngap38413.Ignore, ngap38413.IEPDUSessionResourceSetupListCxtRes, ngap38413.Ignore})
 //@ ensures ids: pdu.SuccessfulOutcome.Value.InitialContextSetupResponse.ProtocolIEs.List[0].Value.AMFUENGAPID.Value == amfUeNgapID && pdu.SuccessfulOutcome.Value.InitialContextSetupResponse.ProtocolIEs.List[1].Value.RANUENGAPID.Value == ranUeNgapID
 //@ ensures psi: len(pdu.SuccessfulOutcome.Value.InitialContextSetupResponse.ProtocolIEs.List[2].Value.PDUSessionResourceSetupListCxtRes.List) == 1 && pdu.SuccessfulOutcome.Value.InitialContextSetupResponse.ProtocolIEs.List[2].Value.PDUSessionResourceSetupListCxtRes.List[0].PDUSessionID.Value == pduId
+
+// The transfer of a PDU SESSION RESOURCE SETUP RESPONSE / INITIAL CONTEXT SETUP RESPONSE item carries the
+// gNB's GTP-U endpoint: a GTP tunnel (CHOICE index 1) whose transport layer address is the IPv4 address
+// given (32 bits, TS 38.414 5.1) with TEID 00000001, and one associated QoS flow, identifier 1.
+//@ func buildPDUSessionResourceSetupResponseTransfer
+//@ prop C13
+//@ requires ip: len(ipv4) >= 1 && net.ParseIP(ipv4).To4() != nil
+//@ ensures tunnel: data.QosFlowPerTNLInformation.UPTransportLayerInformation.Present == 1 && data.QosFlowPerTNLInformation.UPTransportLayerInformation.GTPTunnel != nil
+//@ ensures teid: vcSame(data.QosFlowPerTNLInformation.UPTransportLayerInformation.GTPTunnel.GTPTEID.Value, []byte{0, 0, 0, 1})
+//@ ensures addr: data.QosFlowPerTNLInformation.UPTransportLayerInformation.GTPTunnel.TransportLayerAddress.Value.BitLength == 32 && vcSame(data.QosFlowPerTNLInformation.UPTransportLayerInformation.GTPTunnel.TransportLayerAddress.Value.Bytes, net.ParseIP(ipv4).To4())
+//@ ensures qfi: len(data.QosFlowPerTNLInformation.AssociatedQosFlowList.List) == 1 && data.QosFlowPerTNLInformation.AssociatedQosFlowList.List[0].QosFlowIdentifier.Value == 1
+
+// ... and that is the value handed to the encoder, for the address the caller gave.
+//@ func GetPDUSessionResourceSetupResponseTransfer
+//@ prop C13
+//@ inlines buildPDUSessionResourceSetupResponseTransfer
+//@ requires ip: len(ipv4) >= 1 && net.ParseIP(ipv4).To4() != nil
+//@ call MarshalWithParams hands (val interface{}, ipv4 string): vcIsSetupTransfer(val, ipv4)
